@@ -159,12 +159,16 @@ func runCase(c cfg, ops []op) (obs []Sx) {
 	case "default":
 		configured = true
 	case "direct":
-		root.TickSize = time.Duration(c.v)
+		// Configure creates the registry; the public field is assigned afterwards
+		configured = true
 	}
 	if configured {
 		if err := root.Configure(facts); err != nil {
 			return []Sx{T("configure-error")}
 		}
+	}
+	if c.kind == "direct" {
+		root.TickSize = time.Duration(c.v)
 	}
 	if err := root.Initialize(repository); err != nil {
 		return []Sx{T("initialize-error")}
@@ -259,11 +263,9 @@ func runCase(c cfg, ops []op) (obs []Sx) {
 		if !ok || reflect.ValueOf(m).Pointer() != reflect.ValueOf(root.VerifCommits()).Pointer() {
 			same = false
 		}
-		if d, ok := facts[api.FactTickSize].(time.Duration); !ok || d != root.TickSize {
-			same = false
-		}
 	}
-	obs = append(obs, T("end", I64(int64(root.TickSize)), B(same), regSx("reg", root.VerifCommits())))
+	published, _ := facts[api.FactTickSize].(time.Duration)
+	obs = append(obs, T("end", I64(int64(root.TickSize)), I64(int64(published)), B(same), regSx("reg", root.VerifCommits())))
 	return
 }
 
